@@ -1187,6 +1187,9 @@ class VerilogCase(ast.AST):
                 
         str += 'default:'
         sts = self.default
+        if len(sts) == 0:
+            # a case item needs a statement, use the null statement
+            str += ';\n'
         if len(sts) > 1:
             str += 'begin\n'
 
